@@ -38,9 +38,8 @@ Lemma fire_prep_facts d due req :
   up_time z = up_time d /\ down_time z = down_time d /\ last_time z = last_time d /\
   start_time z = start_time d /\ stop_time z = stop_time d /\ clk z = Z.max (now d) due.
 Proof.
-  cbv zeta. unfold fire_prep, fire_z1, fire_z0, set_button_req, begin_event.
-  destruct req; frw; (split; [reflexivity|]); (split; [reflexivity|]); (split; [reflexivity|]);
-    (split; [k2|]); (split; [k3|]); repeat split; reflexivity.
+  cbv zeta. destruct req; (split; [reflexivity|]); (split; [reflexivity|]); (split; [reflexivity|]);
+    (split; [constructor; reflexivity|]); (split; [constructor; reflexivity|]); repeat split; reflexivity.
 Qed.
 
 Section Converge.
